@@ -79,7 +79,11 @@ def snapshot(b, root, dts):
     for c in sorted(b.registry.queryCollections()):
         for dt in dts:
             try:
-                rows = sorted((str(r.id), r.run, str(sorted(r.dataId.required.items()))) for r in b.registry.queryDatasets(dt, collections=[c]))
+                if dt.isCalibration() and b.registry.getCollectionType(c).name == "CALIBRATION":
+                    rows = sorted((str(a_.ref.id), a_.ref.run, str(sorted(a_.ref.dataId.required.items())), str(a_.timespan))
+                                  for a_ in b.registry.queryDatasetAssociations(dt, collections=[c]))
+                else:
+                    rows = sorted((str(r.id), r.run, str(sorted(r.dataId.required.items()))) for r in b.registry.queryDatasets(dt, collections=[c]))
             except Exception as e:
                 rows = [type(e).__name__]
             regd[(c, dt.name)] = rows
@@ -117,9 +121,14 @@ def gen_prog(rng, depth, counter):
     body = []
     for _ in range(n):
         r = rng.random()
-        if r < 0.5:
+        if r < 0.4:
             counter[0] += 1
             body.append(("P", counter[0]))
+        elif r < 0.47:
+            counter[0] += 1
+            body.append(("G", counter[0], rng.choice(["copy", "move"])))  # ingest: the same effect as a put
+        elif r < 0.52:
+            body.append((rng.choice(["A", "C", "D"]),))  # associate / certify / disassociate: registry-only statements
         elif r < 0.62:
             body.append(("F",))
         elif depth > 0 and r < 0.82:
@@ -135,12 +144,14 @@ def gen_prog(rng, depth, counter):
 def enc(body):
     out = []
     for st in body:
-        if st[0] == "P":
-            out.append(f"P {st[1]}")
+        if st[0] in ("P", "G"):
+            out.append(f"P {st[1]}")  # an ingest is a put as far as files and registrations go
         elif st[0] == "F":
             out.append("F")
+        elif st[0] in ("A", "C", "D"):
+            continue  # registry-only statements do not touch what the model tracks; the snapshot oracle covers them
         else:
-            out.append(f"{st[0]} {len(st[1])} " + enc(st[1]))
+            out.append(f"{st[0]} {len([x for x in st[1] if x[0] not in ('A', 'C', 'D')])} " + enc(st[1]))
     return " ".join(out)
 
 
@@ -164,11 +175,41 @@ def programs(ctx, model_ok, tmp):
 
     existing = b.put({"keep": 0}, dt, instrument="I", detector=N - 1)
     kinds = {"boom": Boom, "base": BoomBase, "kbd": KeyboardInterrupt, "exit": SystemExit}
+    # registry-only statements work on datasets that exist before the block
+    from astropy.time import Time
+    from lsst.daf.butler import CollectionType, FileDataset, Timespan
+
+    dtc = DatasetType("dtc", {"instrument", "detector"}, "StructuredDataDict", universe=b.dimensions, isCalibration=True)
+    b.registry.registerDatasetType(dtc)
+    b.registry.registerCollection("ptag", CollectionType.TAGGED)
+    b.registry.registerCollection("pcal", CollectionType.CALIBRATION)
+    calib_ds = b.put({"c": 1}, dtc, instrument="I", detector=N - 1)
+    spare = [b.put({"s": i}, dt, instrument="I", detector=N - 2 - i) for i in range(3)]
+    tick = [0]
 
     def execute(body, base, how):
         for st in body:
             if st[0] == "P":
                 b.put({"v": st[1]}, dt, instrument="I", detector=base + st[1])
+            elif st[0] == "G":
+                from lsst.daf.butler import DatasetRef
+
+                srcf = os.path.join(tmp, f"g{base + st[1]}.yaml")
+                with open(srcf, "w") as fh:
+                    fh.write(f"v: {st[1]}\n")
+                b.ingest(FileDataset(path=srcf, refs=[DatasetRef(dt, {"instrument": "I", "detector": base + st[1]}, run="r")]), transfer=st[2])
+                if st[2] == "copy":
+                    os.remove(srcf)
+            elif st[0] == "A":
+                b.registry.associate("ptag", [spare[tick[0] % 3]])
+                tick[0] += 1
+            elif st[0] == "D":
+                b.registry.disassociate("ptag", [spare[tick[0] % 3]])
+                tick[0] += 1
+            elif st[0] == "C":
+                tick[0] += 1
+                t0 = Time("2020-01-01T00:00:00", scale="tai")
+                b.registry.certify("pcal", [calib_ds], Timespan(t0 + tick[0], t0 + tick[0] + 0.5))  # days: never overlapping
             elif st[0] == "F":
                 if how == "reput":
                     # a statement that fails by itself: storing again under a resolved ref the datastore already holds
@@ -176,8 +217,6 @@ def programs(ctx, model_ok, tmp):
                     raise AssertionError("re-put of a stored resolved ref was accepted")
                 if how == "reingest":
                     # likewise: ingesting a file for a dataset the datastore already holds must be refused harmlessly
-                    from lsst.daf.butler import FileDataset
-
                     srcf = os.path.join(tmp, "reingest.yaml")
                     with open(srcf, "w") as fh:
                         fh.write("keep: 0\n")
@@ -204,7 +243,7 @@ def programs(ctx, model_ok, tmp):
             counter[0] = 3
         if base + counter[0] + 2 >= N:
             break
-        before = snapshot(b, root, [dt])
+        before = snapshot(b, root, [dt, dtc])
         failed = False
         how = "boom" if n < len(corpus) else rng.choice(["boom", "boom", "base", "kbd", "exit", "reput", "reingest"])
         try:
@@ -212,7 +251,7 @@ def programs(ctx, model_ok, tmp):
                 execute(body, base, how)
         except ESCAPES + (ConflictingDefinitionError,):
             failed = True
-        after = snapshot(b, root, [dt])
+        after = snapshot(b, root, [dt, dtc])
         ctx.evaluations += 1
         ctx.count(f"failure-kind:{how}")
         text = enc(body)
@@ -224,7 +263,7 @@ def programs(ctx, model_ok, tmp):
         f_ids = sorted(int(f.split("_")[2][1:]) - base for f in new_files)  # dt_I_d<det>_r.yaml
         r_ids = sorted({int(eval(row[2])[0][1]) - base for rows in after["registry"].values() for row in rows} -
                        {int(eval(row[2])[0][1]) - base for rows in before["registry"].values() for row in rows})
-        req.append(f"txn run 1 B {len(body)} {text}")
+        req.append(f"txn run 1 B {len([x for x in body if x[0] not in ('A', 'C', 'D')])} {text}")
         impl.append(f"failed={'true' if failed else 'false'} files={','.join(map(str, f_ids)) or '-'} reg={','.join(map(str, r_ids)) or '-'} "
                     f"depth={after['txn_depth']}")
         ctx.sample({"program": text, "implementation": impl[-1]}, cap=4)
